@@ -1669,7 +1669,11 @@ def _p_cond(I, args, kw, node):
 
 def _p_reduce(op):
     def h(I, args, kw, node):
-        return I.reduce(op, args[0], kw.get("axis", args[1] if len(args) > 1 else NONE))
+        r = I.reduce(op, args[0], kw.get("axis", args[1] if len(args) > 1 else NONE))
+        d = kw.get("dtype")
+        if d is not None and (_dtype_visible(I, d) or (d[0] == "app" and d[1] == "dtype")):
+            return ("app", "astype", (r, d))  # accumulating in a runtime-derived / narrow dtype casts the result
+        return r
     return h
 
 
